@@ -511,6 +511,11 @@ func (b Builder) PyUint64(uintVal Expr) (ret Expr) {
 
 // PyStr returns a py-style string constant expression.
 func (b Builder) PyStr(v string) Expr {
+	if strings.IndexByte(v, 0) >= 0 {
+		// a Go string constant may contain NUL bytes; PyUnicode_FromString
+		// (and the C string constant itself) would stop at the first one
+		return b.PyStrExpr(b.Str(v))
+	}
 	fn := b.Pkg.pyFunc("PyUnicode_FromString", b.Prog.tyPyUnicodeFromString())
 	return b.Call(fn, b.CStr(v))
 }
